@@ -114,10 +114,11 @@ func (p *P) Components() map[string]string {
 // ---------------------------------------------------------------- scenario
 
 type fileSpec struct {
-	Name    string
-	Content string
-	Mode    os.FileMode
-	Kind    string
+	Name     string
+	Content  string
+	Mode     os.FileMode
+	Kind     string
+	resolved bool
 }
 
 type scenario struct {
@@ -155,6 +156,16 @@ var fileKinds = []struct{ kind, content string }{
 	{"strict-sensitive", "SELECT 1;;\n"},
 	{"non-ascii", "SELECT 'é😀' AS \"ключ\" FROM t"},
 	{"long", "SELECT " + strings.Repeat("col_a, ", 60) + "col_z FROM some_table WHERE x = 1"},
+	// parse fine but are rejected at the CLI formatter stage, after something was rendered
+	{"formatter-unsupported", "DELETE FROM staging WHERE batch = 1;\nTRUNCATE TABLE audit_log;\n"},
+	{"formatter-unsupported", "SELECT 1;\nSHOW TABLES;\n"},
+	{"formatter-unsupported", "WITH c AS (SELECT a FROM t) SELECT a FROM c;\nDESCRIBE t;\n"},
+	// derived at run time from what the binary itself prints for the base text (same options)
+	{"derived:canonical", "select a,b from t where a=1"},
+	{"derived:canonical-crlf", "select a,b from t where a=1 and b in (1,2)"},
+	{"derived:canonical-crlf", "insert into t (a, b) values (1, 'x')"},
+	{"derived:canonical-trailing-newline", "select a from t order by a"},
+	{"with-comments", "-- leading\nselect a, /* mid */ b from t -- trailing\nwhere a = 1;\n"},
 }
 
 func genScenario(src *tape.Source) *scenario {
@@ -267,7 +278,7 @@ func genScenario(src *tape.Source) *scenario {
 		if sc.Cmd != "validate" || src.Intn(2, "c19.dash") == 1 {
 			sc.Args = append(sc.Args, "-")
 		}
-	case input == 7 && (strings.HasPrefix(strings.ToUpper(sc.Files[0].Content), "SELECT ") || strings.HasPrefix(strings.ToUpper(sc.Files[0].Content), "INSERT ")):
+	case input == 7 && !strings.HasPrefix(sc.Files[0].Kind, "derived:") && (strings.HasPrefix(strings.ToUpper(sc.Files[0].Content), "SELECT ") || strings.HasPrefix(strings.ToUpper(sc.Files[0].Content), "INSERT ")):
 		sc.Files = sc.Files[:1]
 		sc.Args = append(sc.Args, sc.Files[0].Content)
 	default:
@@ -433,6 +444,64 @@ func (p *P) run(sc *scenario, wrap []string, traceFile bool) (*outcome, string, 
 	return o, dir, nil
 }
 
+// formatOpts returns the formatting options of a format command line (without
+// mode flags, output target and file arguments).
+func (sc *scenario) formatOpts() []string {
+	var opt []string
+	if sc.Cmd != "format" {
+		return nil
+	}
+	for i := 1; i < len(sc.Args); i++ {
+		a := sc.Args[i]
+		switch a {
+		case "-i", "--check", "-":
+			continue
+		case "-o":
+			i++
+			continue
+		}
+		if strings.HasSuffix(a, ".sql") || strings.ContainsAny(a, " \n") {
+			continue
+		}
+		opt = append(opt, a)
+	}
+	return opt
+}
+
+// resolveDerived replaces the content of "derived:*" files by a text derived
+// from what the binary prints for the base text with the scenario's options:
+// the canonical form itself, the canonical form with CRLF line endings and no
+// final newline, or with an extra final newline.
+func (p *P) resolveDerived(sc *scenario) {
+	for i := range sc.Files {
+		f := &sc.Files[i]
+		if !strings.HasPrefix(f.Kind, "derived:") || f.resolved {
+			continue
+		}
+		f.resolved = true
+		c := scenario{Cmd: "format", UsesFiles: true, Files: []fileSpec{{Name: "d.sql", Content: f.Content, Mode: 0o644}}}
+		c.Args = append(append([]string{"format"}, sc.formatOpts()...), "d.sql")
+		o, _, err := p.run(&c, nil, false)
+		if err != nil || o.Exit != 0 || o.Stdout == "" {
+			f.Kind = "valid-unformatted"
+			continue
+		}
+		canonical := strings.TrimSuffix(o.Stdout, "\n")
+		switch f.Kind {
+		case "derived:canonical":
+			f.Content = canonical
+		case "derived:canonical-crlf":
+			f.Content = strings.ReplaceAll(canonical, "\n", "\r\n")
+		default:
+			f.Content = canonical + "\n"
+		}
+		if sc.Stdin != nil && i == 0 {
+			s := f.Content
+			sc.Stdin = &s
+		}
+	}
+}
+
 // ---------------------------------------------------------------- library verdicts
 
 func blank(s string) bool { return strings.TrimSpace(s) == "" }
@@ -498,6 +567,8 @@ func (p *P) Run(src *tape.Source, trace bool) *core.Result {
 			os.RemoveAll(filepath.Join(p.workDir, e.Name()))
 		}
 	}()
+	p.resolveDerived(sc)
+	r.CaseKey = canon.Hash(sc.String())
 	base, _, err := p.run(sc, nil, false)
 	if err != nil {
 		r.Infra = "fault-free run failed: " + err.Error()
@@ -564,7 +635,12 @@ func (p *P) verdictOracles(r *core.Result, sc *scenario, base *outcome) {
 	case "format":
 		if !sc.Check && !anyBlank {
 			if (base.Exit == 0) != allAccepted {
-				r.Fail("verdict", "format exit status", fmt.Sprintf("%s: exit status %d but the library %s the inputs; stderr %q", desc, base.Exit, map[bool]string{true: "accepts all of", false: "rejects some of"}[allAccepted], clip(base.Stderr, 200)))
+				sig := "format exit status"
+				if m := unsupportedRe.FindStringSubmatch(base.Stderr); m != nil && allAccepted {
+					// the CLI's own formatter cannot render a statement the library parses
+					sig = "format exit status: CLI formatter rejects " + m[1]
+				}
+				r.Fail("verdict", sig, fmt.Sprintf("%s: exit status %d but the library %s the inputs; stderr %q", desc, base.Exit, map[bool]string{true: "accepts all of", false: "rejects some of"}[allAccepted], clip(base.Stderr, 200)))
 			}
 		}
 		if sc.Check && !allAccepted && base.Exit == 0 {
@@ -601,6 +677,10 @@ func (p *P) verdictOracles(r *core.Result, sc *scenario, base *outcome) {
 	// ---- V3: format stdout == format -i content, and --check consistent with both
 	if sc.Cmd == "format" && sc.UsesFiles && len(sc.Files) >= 1 && !anyBlank {
 		p.formatConsistency(r, sc, base)
+	}
+	// ---- V6: a multi-file run is the union of the single-file runs
+	if sc.UsesFiles && len(sc.Files) >= 2 && sc.Cmd != "parse" && sc.OutFile == "" {
+		p.independence(r, sc, base)
 	}
 	// ---- V4: machine-readable reports are well-formed and name exactly the failing inputs
 	if sc.Cmd == "validate" && sc.Format != "text" && sc.UsesFiles {
@@ -687,6 +767,47 @@ func (p *P) formatConsistency(r *core.Result, sc *scenario, base *outcome) {
 	}
 }
 
+// independence: what a command does with one file does not depend on the
+// other files of the same invocation – exit status is the OR of the single-file
+// statuses, format prints the concatenation of what it prints for each file,
+// and format -i / lint --auto-fix leave each file as a single-file run would.
+func (p *P) independence(r *core.Result, sc *scenario, base *outcome) {
+	var sumOut strings.Builder
+	anyFail := false
+	for _, f := range sc.Files {
+		c := *sc
+		c.Files = []fileSpec{f}
+		var args []string
+		for _, a := range sc.Args {
+			if strings.HasSuffix(a, ".sql") && len(a) <= 7 {
+				continue
+			}
+			args = append(args, a)
+		}
+		c.Args = append(args, f.Name)
+		o, _, err := p.run(&c, nil, false)
+		if err != nil {
+			return
+		}
+		r.Evals++
+		if o.Exit != 0 {
+			anyFail = true
+		}
+		sumOut.WriteString(o.Stdout)
+		if sc.InPlace || sc.AutoFix {
+			if got, want := base.Files[f.Name].Content, o.Files[f.Name].Content; got != want && !(sc.Cmd == "lint") {
+				r.Fail("multi-file-independence", sc.Cmd+" in-place content", fmt.Sprintf("%s: %s ends up as %q in the multi-file run but as %q when processed alone", sc, f.Name, clip(got, 120), clip(want, 120)))
+			}
+		}
+	}
+	if (base.Exit != 0) != anyFail {
+		r.Fail("multi-file-independence", sc.Cmd+" exit status", fmt.Sprintf("%s: exit status %d, but processing the files one by one fails=%v", sc, base.Exit, anyFail))
+	}
+	if sc.Cmd == "format" && !sc.InPlace && !sc.Check && base.Stdout != sumOut.String() {
+		r.Fail("multi-file-independence", "format stdout", fmt.Sprintf("%s: prints %q, the files one by one print %q", sc, clip(base.Stdout, 200), clip(sumOut.String(), 200)))
+	}
+}
+
 func (p *P) reportOracle(r *core.Result, sc *scenario, data string, rejected map[string]bool, ins []fileSpec) {
 	// strip cobra's error/usage text that follows the report on stdout? it goes to stderr; stdout must be the report alone
 	var named map[string]bool
@@ -765,6 +886,7 @@ type event struct {
 	Line    string
 }
 
+var unsupportedRe = regexp.MustCompile(`unsupported statement type: (\*ast\.\w+)`)
 var lineRe = regexp.MustCompile(`^(\d+)\s+(\w+)\((.*)$`)
 var fdPathRe = regexp.MustCompile(`^\d+<([^>]*)>`)
 var quotedRe = regexp.MustCompile(`"((?:[^"\\]|\\.)*)"`)
